@@ -524,6 +524,46 @@ def r_ja(repo, rep):
     rep.check(all(seen.values()), 'R20.6', wt, 'ja-reader:node:arity', 'unary and binary nodes are both rebuilt', 'rebuilt node kinds: %s' % seen)
 
 
+def r_ptb_lines(repo, rep, R='R20.4'):
+    """read_ptb hands every line that is neither blank nor a heading to the line parser, as it is (stripped): the
+    completeness check of the line parser then sees each line by itself -- a line held back until brackets balance, or
+    joined with its neighbours, is never rejected when it is incomplete (it swallows the lines after it instead)"""
+    rm = repo.module(RD)
+    fn = rm.get('read_ptb')
+    w = '%s:%s read_ptb' % (RD, fn.lineno)
+    judged = 0
+    bad = []
+    for st, o in SymExec(fn, unroll=1).run():
+        enter = [e for e in st.events if e[0] == 'loop-enter']
+        if not enter or o == 'raise':
+            continue
+        it = enter[0][1]
+        line_terms = set()
+        for x in [t for e in st.events if e[0] == 'call' for t in subterms(e[1])] + [t for c, _p, _ in st.conds for t in subterms(c)]:
+            if x[0] in ('unpack', 'elem') and any(y == ('elem', it, None) or (y[0] == 'elem' and y[1] == it) for y in subterms(x)):
+                line_terms.add(x)
+
+        def is_line(t):
+            while t[0] == 'call' and t[1][0] == 'attr' and t[1][2] in ('strip', 'rstrip', 'lstrip') and not t[2]:
+                t = t[1][1]
+            return (t[0] == 'unpack' and t[1][0] == 'elem' and t[1][1] == it) or (t[0] == 'elem' and t[1] == it)
+        blank = any(pol and c[0] == 'cmp' and c[1] == '==' and C(0) in c[2:] and any(x[0] == 'call' and x[1] == N('len') for x in c[2:]) for c, pol, _ in st.conds) or \
+            any((not pol) and is_line(c) for c, pol, _ in st.conds)
+        heading = any(pol and c[0] == 'call' and c[1][0] == 'attr' and c[1][2] == 'startswith' and is_line(c[1][1]) for c, pol, _ in st.conds)
+        parses = [e[1] for e in st.events if e[0] == 'call' and e[1][1] in (N('_parse_ptb'),) or (e[0] == 'call' and e[1][1][0] == 'func' and e[1][1][1] == '_parse_ptb')]
+        judged += 1
+        if blank or heading:
+            continue
+        if not parses:
+            bad.append('a line that is neither blank nor a heading is not parsed when %s' % '; '.join('%s%s' % ('' if pol else 'not ', show(c)[:40]) for c, pol, _ in st.conds[-2:]))
+        elif not all(p_[2] and is_line(p_[2][0]) for p_ in parses):
+            bad.append('the line parser is given %s, not the line' % show(parses[0][2][0] if parses[0][2] else C(None))[:60])
+    if judged < 3:
+        raise AnalysisError('%s: read_ptb: the line loop was not recognised' % RD)
+    rep.check(not bad, R, w, 'read_ptb:line-by-line', 'every line that is neither blank nor a heading goes to the line parser by itself (%d paths)' % judged,
+              '%s -- an incomplete line is not rejected: it is held back and swallows the lines that follow' % '; '.join(sorted(set(bad))[:2]))
+
+
 def check(repo, rep, tier):
     rep.rule('R20.1', 'reader calls of Tree.make_* bind to the signatures; label strings are strings')
     rep.rule('R20.2', 'Japanese reader symbol set covers the printable rule symbols')
@@ -538,6 +578,7 @@ def check(repo, rep, tier):
     r_annotation_cut(repo, rep)
     rep.floor('reader functions scanned for find()-derived slices', nf, 25)
     r_ptb(repo, rep)
+    r_ptb_lines(repo, rep)
     r_ja(repo, rep)
     # the PTB reader asks guess_combinator_by_triplet for the label of every binary node it builds: that function must
     # hand back a result for any three categories (shared with C12 R12.4)
@@ -551,3 +592,5 @@ def check(repo, rep, tier):
     r_atoms(repo.module('depccg/cat.py'), rep, 'R20.6')
     from .c15 import r_extension_dispatch_text
     r_extension_dispatch_text(repo, rep, 'R20.4', 'read_ptb')
+    from .. import rules_pyx as rp
+    rp.r_tree_factories(repo, rep, 'R20.1')      # both readers build their nodes with Tree.make_*: the factories store what they are given (a unary node X -> X stays a node)
